@@ -672,6 +672,8 @@ func (cr *ConRun) runOther() {
 		cr.runIndex()
 	case "lock":
 		cr.runLock()
+	case "bpm":
+		cr.runBpm()
 	default:
 		cr.SetupErr = "workload " + cr.Cfg.Workload + " not implemented"
 	}
